@@ -202,6 +202,35 @@ def register(T, repo):
     def rs_result(A):
         return TupleS(hull_out(A['src'], A), BoolS('next_repl'))
 
+    # C10 rotation: strings of the placeholder collection carry the ghost
+    # tag 'placeholder'; appending a token whose text is such a string is a
+    # placeholder emission (ghost counter `$ph`).  Body contract of the
+    # loop for inline formulas: the number of stores to `repls` in one
+    # iteration equals the number of placeholders emitted in it, at most
+    # one -- with the evaluation lemma 'every store to repls in
+    # replace_section is a rotation by one' (props/C10.py): each inline
+    # placeholder is preceded by exactly one rotation.
+    class ReplStrS(StrS):
+        def make(self, ex, st):
+            v = StrS.make(self, ex, st)
+            v.tag = 'placeholder'
+            return v
+
+    def ph_append_hook(ex, st, lst, v, line, prev=T.list_append_hook):
+        if isinstance(v, Obj) and getattr(v.fields.get('txt'), 'tag',
+                                          None) == 'placeholder':
+            st.ghost['$ph'] = st.ghost.get('$ph', 0) + 1
+        if prev:
+            prev(ex, st, lst, v, line)
+    T.list_append_hook = ph_append_hook
+
+    def rot_per_placeholder(E0, E1):
+        s0, s1 = E0['$st'], E1['$st']
+        repls = E1['repls']
+        rot = len(s1.writes_of(repls)) - len(s0.writes_of(repls))
+        ph = s1.ghost.get('$ph', 0) - s0.ghost.get('$ph', 0)
+        return Implies(E1['inline'], bool(rot == ph and ph <= 1))
+
     c = T.add(FContract(
         MP + 'replace_section', ghosts=rs_ghost,
         params=lambda G: {'self': MathParserS(G['src']),
@@ -210,7 +239,7 @@ def register(T, repo):
                                           'parts'),
                           'first_section': BoolS('first_section'),
                           'next_repl': BoolS('next_repl'),
-                          'repls': ListS(StrS(name='repl'),
+                          'repls': ListS(ReplStrS(name='repl'),
                                          lambda n: zint(n) >= 1, 'repls')},
         result=rs_result,
         # the placeholder collection keeps its length (rotation)
@@ -220,7 +249,10 @@ def register(T, repo):
         post_objs=[('parser', lambda A: A['self'], post_p)]))
     lp = c.loop(0)
     lp.shapes['out'] = lambda E: hull_out(E['src'], E)
-    lp.shapes['repls'] = lambda E: ListS(StrS(name='repl'), None, 'repls')
+    lp.shapes['repls'] = lambda E: ListS(ReplStrS(name='repl'), None,
+                                         'repls')
+    lp.body_post.append(('inline-one-rotation-per-placeholder',
+                         rot_per_placeholder))
     lp.invs.append(('repls-length', lambda E: zint(E['repls'].length()) ==
                     zint(E['$args']['old']['n'])))
     pm.loop_parser_shapes(lp, parser='self.parser', buf=None)
